@@ -13,6 +13,7 @@ import ast
 
 from sa import mutate as M
 from sa import pattern as PT
+from sa import values as VX
 from sa.consts import UNKNOWN
 from sa.ctx import Ctx
 from sa.effects import Raises
@@ -68,7 +69,13 @@ def rule_sp_shared(ctx: Ctx, rep: Report) -> None:
         rep.ob(rule, f"{tagname}:one_user", users == {owner}, f"{ctx.module(SP).relpath}:1", f"tag used by {sorted(users)}")
     ps = ctx.func(f"{SP}.prv_key_sum")
     txt = PT.text(ps)
-    rep.ob(rule, "prv_key_sum:taproot_negation", "if is_p2tr(bytes_from_octets(script_pub_key)) and mult(a)[1] % 2: a = secp256k1.n - a" in txt, ps.where(), "a taproot key with odd y is negated (sender side)")
+    neg = False
+    for i_ in own_nodes(ps.node):
+        if isinstance(i_, ast.If):
+            t_ = norm(VX.normal(i_.test))
+            if "is_p2tr(" in t_ and "% 2" in t_ and "mult(" in t_ and any(isinstance(a_, ast.Assign) and VX.has(VX.normal(a_.value), "secp256k1.n - $$a") for b_ in i_.body for a_ in ast.walk(b_)):
+                neg = True
+    rep.ob(rule, "prv_key_sum:taproot_negation", neg, ps.where(), "a taproot key with odd y is negated (sender side)")
     rep.ob(rule, "prv_key_sum:zero_refused", any(c.subject == "total" and c.op == "==" and c.value == 0 for c in refusal_constraints(ctx, ps)), ps.where(), "a zero sum is refused")
     pt = ctx.func(f"{SP}._pub_key_from_p2tr")
     rep.ob(rule, "pub_key_from_p2tr:even_y", "point_from_bip340pub_key(" in norm(pt.node), pt.where(), "the scanner lifts a taproot output key as a BIP340 (even-y) key -- the public twin of the negation")
@@ -102,7 +109,8 @@ def rule_musig_store(ctx: Ctx, rep: Report) -> None:
         a = ver[0].ast.args
         rep.ob(rule, "partial_sigs_agg:key", norm(a[1]) == "x_only_pub_key" and norm(a[0]) == "session.context.msg", pa.where(), "verified under the session's aggregate key and message")
     txt = PT.text(pa)
-    rep.ob(rule, "partial_sigs_agg:sighash_suffix", "if psbt_in.sig_hash_type: signature += psbt_in.sig_hash_type.to_bytes(1, 'big')" in txt, pa.where(), "a non-default hash type is appended")
+    bb: dict[str, str] = {}
+    rep.ob(rule, "partial_sigs_agg:sighash_suffix", VX.of(pa).anywhere("$$s + $$pi.sig_hash_type.to_bytes(1, 'big') if $$t else $$s", bb) and ".sig_hash_type" in bb.get("$$t", ""), pa.where(), "a non-default hash type is appended")
     ap = ctx.func(f"{PM}.assert_valid_participants")
     rep.ob(rule, "assert_valid_participants", bool(refusal_constraints(ctx, ap)) and ("key_agg" in norm(ap.node)), ap.where(), "the aggregate key is recomputed from the participants and compared")
 
